@@ -14,6 +14,7 @@ class Prog:
         self.rules = []      # dict(rs, body, head, name)
         self.rsets = []      # dict(name, kind, subs)
         self.sorts = ["E"]
+        self.csorts = []     # container sorts: dict(name, kind, elems)
 
     def f(self, name):
         for i, fn in enumerate(self.funcs):
@@ -30,7 +31,21 @@ class Prog:
     def struct(self):
         return dict(funcs=self.funcs, rules=[dict(rs=r["rs"], body=r["body"], head=r["head"], name=r["name"],
                                                   inclsub=r.get("inclsub", False)) for r in self.rules],
-                    rsets=self.rsets)
+                    rsets=self.rsets, sorts=self.csorts)
+
+
+CONT_PRESORT = {1: "Vec", 2: "Set", 3: "MultiSet", 4: "Pair", 5: "Map"}
+CONT_OF = {1: "vec-of", 2: "set-of", 3: "multiset-of", 4: "pair", 5: "map-of"}
+
+
+def cont_text(p, sortname, args):
+    kind = [cs for cs in p.csorts if cs["name"] == sortname][0]["kind"]
+    return "(%s %s)" % (CONT_OF[kind], " ".join(args))
+
+
+def elem_sorts(p, sortname, n):
+    cs = [c for c in p.csorts if c["name"] == sortname][0]
+    return [cs["elems"][i % len(cs["elems"])] for i in range(n)]
 
 
 MERGE_TEXT = {"min": "(min old new)", "max": "(max old new)", "or": "(or old new)", "and": "(and old new)",
@@ -44,6 +59,8 @@ def decl_text(p):
         out.append("(sort %s)" % s)
     if any("SetI" in fn["ins"] or fn["out"] == "SetI" for fn in p.funcs):
         out.append("(sort SetI (Set i64))")
+    for cs in p.csorts:
+        out.append("(sort %s (%s %s))" % (cs["name"], CONT_PRESORT[cs["kind"]], " ".join(cs["elems"])))
     for fn in p.funcs:
         ins = " ".join(fn["ins"])
         if fn["kind"] == "con":
@@ -83,6 +100,9 @@ def gterm_text(p, t, sort="i64"):
         return lit_text(t["i"], sort)
     if "set" in t:
         return "(set-of %s)" % " ".join(str(x) for x in t["set"]) if t["set"] else "(set-empty)"
+    if "c" in t:
+        es = elem_sorts(p, t["c"], len(t["a"]))
+        return cont_text(p, t["c"], [gterm_text(p, a, es[i]) for i, a in enumerate(t["a"])])
     fn = p.funcs[t["f"] - 1]
     if not t["a"]:
         return "(%s)" % fn["name"]
@@ -98,6 +118,8 @@ def spec_text(sp, sort="i64"):
 
 
 def atom_text(p, at, wild):
+    if at["k"] == "mk":
+        return "(= %s %s)" % (spec_text(at["o"]), cont_text(p, at["c"], [spec_text(a) for a in at["a"]]))
     if at["k"] == "cmp":
         op = {"neq": "!=", "lt": "<", "le": "<=", "eq": "="}[at["op"]]
         return "(%s %s %s)" % (op, spec_text(at["l"]), spec_text(at["r"]))
@@ -127,6 +149,9 @@ def hterm_text(p, t, sort="i64"):
         return lit_text(t["i"], sort)
     if "p" in t:
         return "(%s %s)" % (t["p"], " ".join(hterm_text(p, a) for a in t["a"]))
+    if "c" in t:
+        es = elem_sorts(p, t["c"], len(t["a"]))
+        return cont_text(p, t["c"], [hterm_text(p, a, es[i]) for i, a in enumerate(t["a"])])
     fn = p.funcs[t["f"] - 1]
     return "(%s%s)" % (fn["name"], "".join(" " + hterm_text(p, a, fn["ins"][i]) for i, a in enumerate(t["a"])))
 
@@ -206,7 +231,10 @@ def flatten(p, t, atoms, nv):
     args = [flatten(p, a, atoms, nv) for a in t["a"]]
     nv[0] += 1
     v = {"v": nv[0]}
-    atoms.append(dict(k="tab", f=t["f"], a=args, o=v))
+    if "c" in t:
+        atoms.append(dict(k="mk", c=t["c"], a=args, o=v))
+    else:
+        atoms.append(dict(k="tab", f=t["f"], a=args, o=v))
     return v
 
 
@@ -254,6 +282,21 @@ class Gen:
                    "none": "i64"}[m]
             ins = r.choice([["E"], ["E"], ["i64"], ["E", "E"]]) if m != "none" else ["i64"]
             p.add("f%s%d" % (m, i), "fn", ins, out, merge=m)
+        for ci, kind in enumerate(pf.get("conts", [])):
+            # container sorts over e-classes; "vv" = a vector of vectors (nesting)
+            name, k, elems = {"vec": ("VecE", 1, ["E"]), "set": ("SetE", 2, ["E"]), "mset": ("MSetE", 3, ["E"]),
+                              "pair": ("PairE", 4, ["E", "E"]), "vv": ("VecVecE", 1, ["VecE"]),
+                              "sv": ("SetVecE", 2, ["VecE"]), "vvv": ("VecVecVecE", 1, ["VecVecE"])}[kind]
+            if kind in ("vv", "sv", "vvv") and not any(c["name"] == "VecE" for c in p.csorts):
+                p.csorts.append(dict(name="VecE", kind=1, elems=["E"]))
+            if kind == "vvv" and not any(c["name"] == "VecVecE" for c in p.csorts):
+                p.csorts.append(dict(name="VecVecE", kind=1, elems=["VecE"]))
+            p.csorts.append(dict(name=name, kind=k, elems=elems))
+            p.add("Hold%d" % ci, "con", [name], "E")
+            if r.random() < 0.7:
+                p.add("Rc%d" % ci, "con", [name], "RelSortC%d" % ci, rel=True)
+            if r.random() < 0.6:
+                p.add("fc%d" % ci, "fn", [name], "i64", merge=r.choice(["min", "max"]))
         nsets = pf["nsets"]
         for i in range(nsets):
             p.rsets.append(dict(name="rs%d" % i, kind="rules", subs=[]))
@@ -321,6 +364,56 @@ class Gen:
             n = r.choice(ic)
             opts.append(([T(n, [V(1)], V(2)), dict(k="cmp", op="lt", l=V(1), r={"i": pf["maxint"]})],
                          [dict(k="ins", t={"f": n, "a": [{"p": "+", "a": [V(1), {"i": 1}]}]})]))
+        copts = []
+        for cs in p.csorts:
+            holds = self.tables(p, lambda fn: fn["kind"] == "con" and fn["ins"] == [cs["name"]] and fn["out"] == "E")
+            rcs = self.tables(p, lambda fn: fn.get("rel") and fn["ins"] == [cs["name"]])
+            fcs = self.tables(p, lambda fn: fn["kind"] == "fn" and fn["ins"] == [cs["name"]])
+            nel = 2 if cs["kind"] == 4 else r.choice([1, 2])
+            if holds and un:
+                copts.append(([T(r.choice(holds), [V(1)], V(2)), T(r.choice(un), [V(3)], V(2))], [dict(k="union", l=V(2), r=V(3))]))
+            if holds and rcs:
+                copts.append(([T(r.choice(rcs), [V(1)], W)], [dict(k="ins", t={"f": r.choice(holds), "a": [V(1)]})]))
+                copts.append(([T(r.choice(holds), [V(1)], V(2))], [dict(k="ins", t={"f": r.choice(rcs), "a": [V(1)]})]))
+            if cs["elems"][0] == "E" and holds:
+                # build a container from matched classes
+                b = [T(r.choice(un or bi or holds), ([V(1)] if un else [V(1), V(1)] if bi else [V(9)]), V(2))] if (un or bi) else None
+                if b and un:
+                    copts.append((b, [dict(k="ins", t={"f": r.choice(holds), "a": [{"c": cs["name"], "a": [V(1), V(2)][:nel] if nel == 2 else [V(2)]}]})]))
+                if rcs and un:
+                    copts.append(([T(r.choice(un), [V(1)], V(2)), dict(k="mk", c=cs["name"], a=[V(2)] * nel, o=V(3)), T(r.choice(rcs), [V(3)], W)],
+                                  [dict(k="union", l=V(1), r=V(2))]))
+            if holds and (un or bi):
+                # match THROUGH the contents: build the (possibly nested) container from a matched class
+                # with `mk` atoms and look the result up in a table keyed by it
+                atoms = [T(r.choice(un), [V(1)], V(2))] if un else [T(r.choice(bi), [V(1), V(1)], V(2))]
+                nv = [2]
+
+                def build(sort, x):
+                    """atoms computing a value of container sort `sort` whose leaves are the class variable x"""
+                    c = [q for q in p.csorts if q["name"] == sort][0]
+                    n = 2 if c["kind"] == 4 else 1
+                    args = []
+                    for es in elem_sorts(p, sort, n):
+                        args.append(x if es == "E" else build(es, x))
+                    nv[0] += 1
+                    atoms.append(dict(k="mk", c=sort, a=args, o=V(nv[0])))
+                    return V(nv[0])
+
+                top = build(cs["name"], V(r.choice([1, 2])))
+                nv[0] += 1
+                atoms.append(T(r.choice(holds), [top], V(nv[0])))
+                copts.append((atoms, [dict(k="union", l=V(nv[0]), r=V(1))] if r.random() < 0.5 or not r1
+                              else [dict(k="ins", t={"f": r.choice(r1), "a": [V(nv[0])]})]))
+                copts.append((list(atoms), [dict(k="union", l=V(nv[0]), r=V(2))]))
+            if fcs and holds:
+                g = r.choice(fcs)
+                copts.append(([T(r.choice(holds), [V(1)], V(2)), T(g, [V(1)], V(3))],
+                              [dict(k="set", f=g, a=[V(1)], t={"p": "+", "a": [V(3), {"i": 1}]} if pf["growth"] else V(3))]))
+                if fe:
+                    copts.append(([T(r.choice(holds), [V(1)], V(2)), T(g, [V(1)], V(3))], [dict(k="set", f=r.choice(fe), a=[V(2)], t=V(3))]))
+        if copts and r.random() < pf.get("cont_rules", 0.6):
+            opts = copts
         if not opts:
             return None
         body, head = r.choice(opts)
@@ -388,6 +481,13 @@ class Gen:
                 return {"v": r.choice(have)} if have and r.random() < 0.6 else {"i": r.randrange(2)}
             if sort == "SetI":
                 return {"v": r.choice(have)} if have else None
+            if any(c["name"] == sort for c in p.csorts):
+                if have and r.random() < 0.6:
+                    return {"v": r.choice(have)}
+                cs = [c for c in p.csorts if c["name"] == sort][0]
+                n = 2 if cs["kind"] == 4 else r.choice([1, 2])
+                args = [hterm(es, 0) for es in elem_sorts(p, sort, n)]
+                return None if any(a is None for a in args) else {"c": sort, "a": args}
             if sort == "E":
                 if have and (depth == 0 or not pf["growth"] or r.random() < 0.6):
                     return {"v": r.choice(have)}
@@ -448,7 +548,7 @@ class Gen:
             if len(ev) >= 2:
                 head.append(dict(k="union", l={"v": ev[0]}, r={"v": ev[1]}))
             else:
-                rels = self.tables(p, lambda fn: fn.get("rel") and len(fn["ins"]) == 1)
+                rels = self.tables(p, lambda fn: fn.get("rel") and fn["ins"] == ["E"])
                 if rels and ev:
                     head.append(dict(k="ins", t={"f": rels[0], "a": [{"v": ev[0]}]}))
                 else:
@@ -585,7 +685,12 @@ class Gen:
                 return {"i": r.randrange(2)}
             if sort == "SetI":
                 return {"set": sorted(set(r.randrange(pf["maxint"] + 1) for _ in range(r.randrange(0, 3))))}
-            cons = declared_tables(st, lambda fn: fn["kind"] == "con" and fn["out"] == sort and (depth > 0 or not fn["ins"] or fn["ins"] == ["i64"]))
+            cso = [c for c in p.csorts if c["name"] == sort]
+            if cso:
+                n = 2 if cso[0]["kind"] == 4 else r.choice(pf.get("cont_n", [1, 2, 2, 3]))
+                return {"c": sort, "a": [gterm(st, es, depth) for es in elem_sorts(p, sort, n)]}
+            cons = declared_tables(st, lambda fn: fn["kind"] == "con" and fn["out"] == sort and (depth > 0 or not fn["ins"] or fn["ins"] == ["i64"])
+                                   and not any(i2 in [c["name"] for c in p.csorts] for i2 in fn["ins"]))
             f = r.choice(cons)
             return {"f": f, "a": [gterm(st, s2, depth - 1) for s2 in p.funcs[f - 1]["ins"]]}
 
@@ -671,3 +776,91 @@ class Gen:
                 emit(c, cmd_text(p, c))
         return dict(id=sid, mode=mode or dict(threads=1, seminaive=True, enc="plain"), prog=p.struct(), active=active,
                     declared=declared, setup=setup, steps=steps, tables=[fn["name"] for fn in p.funcs])
+
+
+def container_scenarios(n, seed):
+    """Directed sessions for in-place container rebuilds (C14/C03): a row stores a container nested
+    d levels deep whose leaf class L is later unioned with an older class M; a rule that matches
+    THROUGH the nested contents (mk chain from a class bound by a relation) has already run once
+    and can only fire after the rebuild changed the innermost container in place.  Depth, container
+    kinds, creation order, the head of the rule and noise commands are randomised."""
+    r = random.Random(seed)
+    out = []
+    for k in range(n):
+        p = Prog()
+        A = p.add("A", "con", [], "E"); B = p.add("B", "con", [], "E")
+        F = p.add("F", "con", ["E"], "E")
+        R = p.add("R", "con", ["E"], "RelSort0", rel=True)
+        Reached = p.add("Reached", "con", ["E"], "RelSort1", rel=True)
+        d = r.choice([1, 2, 2, 3, 3])
+        sorts = []
+        elem = "E"
+        for lvl in range(d):
+            kind = r.choice([1, 1, 2, 3]) if lvl > 0 else r.choice([1, 1, 2, 3, 4])
+            name = "C%d" % lvl
+            p.csorts.append(dict(name=name, kind=kind, elems=[elem, elem] if kind == 4 else [elem]))
+            sorts.append(name)
+            elem = name
+        top = sorts[-1]
+        Hold = p.add("Hold", "con", [top], "E")
+        fn = p.add("fval", "fn", [top], "i64", merge="min") if r.random() < 0.5 else None
+        p.rsets.append(dict(name="rs0", kind="rules", subs=[]))
+        p.rsets.append(dict(name="rs1", kind="rules", subs=[]))
+        V = lambda i: {"v": i}
+        T = lambda f, a, o: dict(k="tab", f=f, a=a, o=o)
+        W = {"w": 1}
+        # rule: (R x), top = nest[x], (= e (Hold top)) => head
+        atoms = [T(R, [V(1)], W)]
+        nv = [1]
+
+        def build(lvl, x):
+            c = p.csorts[lvl]
+            args = [x if lvl == 0 else build(lvl - 1, x) for _ in range(2 if c["kind"] == 4 else 1)]
+            nv[0] += 1
+            atoms.append(dict(k="mk", c=c["name"], a=args, o=V(nv[0])))
+            return V(nv[0])
+
+        tv = build(d - 1, V(1))
+        nv[0] += 1
+        e = V(nv[0])
+        if fn and r.random() < 0.5:
+            atoms.append(T(fn, [tv], e))
+            head = [dict(k="set", f=fn, a=[tv], t={"i": 0})] if r.random() < 0.5 else [dict(k="ins", t={"f": Reached, "a": [V(1)]})]
+        else:
+            atoms.append(T(Hold, [tv], e))
+            head = r.choice([[dict(k="ins", t={"f": Reached, "a": [e]})], [dict(k="union", l=e, r=V(1))],
+                             [dict(k="ins", t={"f": F, "a": [e]})]])
+        p.rules.append(dict(rs="rs0", name="through", body=atoms, head=head))
+        p.rules.append(dict(rs="rs1", name="ff", body=[T(F, [V(1)], V(2)), T(F, [V(2)], V(3))], head=[dict(k="union", l=V(3), r=V(1))]))
+        t = lambda f, *a: {"f": f, "a": list(a)}
+        a, b = t(A), t(B)
+        leafs = [t(F, a), t(F, b), b, t(F, t(F, a))]
+        L = r.choice(leafs)
+        M = r.choice([a, b, t(F, b)])
+
+        def nest(lvl, x):
+            c = p.csorts[lvl]
+            return {"c": c["name"], "a": [x if lvl == 0 else nest(lvl - 1, x) for _ in range(2 if c["kind"] == 4 else 1)]}
+
+        run0 = dict(k="run", s=dict(k="run", rs="rs0", until=[]))
+        run1 = dict(k="run", s=dict(k="run", rs="rs1", until=[]))
+        first = [dict(k="ins", t=M), dict(k="ins", t=L)]
+        if r.random() < 0.35:
+            first.reverse()
+        hold = dict(k="set", f=fn, a=[nest(d - 1, L)], v={"i": r.randrange(1, 4)}) if (fn and atoms[-1]["f"] == fn) else dict(k="ins", t=t(Hold, nest(d - 1, L)))
+        cmds = first + [hold, dict(k="ins", t=t(R, M))]
+        noise = [dict(k="ins", t=t(Hold, nest(d - 1, r.choice(leafs)))), run1, dict(k="ins", t=t(R, r.choice([a, b]))),
+                 dict(k="union", a=r.choice(leafs), b=r.choice(leafs)), check_eq(p, L, M), run0]
+        for _ in range(r.randrange(0, 3)):
+            cmds.insert(r.randrange(2, len(cmds) + 1), r.choice(noise))
+        cmds += [run0]
+        if r.random() < 0.5:
+            cmds += [run0]
+        cmds += [dict(k="union", a=L, b=M), run0]
+        for _ in range(r.randrange(0, 3)):
+            cmds.append(r.choice(noise + [run0]))
+        cmds += [check_eq(p, t(Hold, nest(d - 1, L)), M), run0]
+        steps = [dict(c={kk: vv for kk, vv in c.items() if kk != "text"}, text=cmd_text(p, c)) for c in cmds]
+        out.append(dict(id="c14s-%d" % k, mode=dict(threads=1, seminaive=True, enc="plain"), prog=p.struct(), active=[1, 2],
+                        setup=decl_text(p) + [rule_text(p, q) for q in p.rules], steps=steps, tables=[f["name"] for f in p.funcs]))
+    return out
